@@ -171,7 +171,7 @@ GRID = {"h_groupby": _grid}
 
 def jobs(tier):
     q = tier == "quick"
-    T = 150 if q else 900
+    T = 300 if q else 900
     J = []
     for key in ("none", "def", "adef"):
         if q:
